@@ -62,7 +62,7 @@ def run_case(case):
     except Exception as e:
         return ("fail", f"C02/{case['enc']}/real-default-raises/{type(e).__name__}",
                 f"pvl.loads(text) raised {e!r}; text={text!r}")
-    n = nm.norm_for(case["enc"], "default")
+    n = nm.norm_for(case["enc"], "default", case["cfg"])
     d = nm.diff(nm.expect_module(case["spec"], n), nm.canon(real),
                 allow_g2o=(case["enc"] == "PDS3"))
     if d is not None:
